@@ -205,6 +205,12 @@ def _run_hyp_shard(sub: Sub, tier: str, k: int, n_examples: int, seed: int) -> d
 def _worker_task(args):
     mod_name, sub_name, tier, kind, k, n, seed = args
     import importlib
+    try:  # a runaway case (e.g. an infinite walk under a mutant) must not take the machine down
+        import resource
+        lim = int(os.environ.get('VERIF_WORKER_MEM_GB', '6')) << 30
+        resource.setrlimit(resource.RLIMIT_AS, (lim, lim))
+    except Exception:
+        pass
     mod = importlib.import_module(mod_name)
     sub = [s for s in mod.SUBS if s.name == sub_name][0]
     try:
